@@ -1,5 +1,7 @@
 """C09 - eviction starts only at the size limit and follows the policy order."""
 
+import os
+
 from .. import common, gen, observe, probe
 from ..driver import CacheDriver, Mismatch
 from ..model import Ambiguous
@@ -19,7 +21,7 @@ RULE = ('histories of sets/gets/incrs/touches/pops with skewed read patterns ove
 DISTINCT = ('evict_cells',)
 REQUIRED = ('calls_judged', 'evicting_writes_lrs', 'evicting_writes_lru', 'evicting_writes_lfu', 'writes_below_limit',
             'policy_none_histories', 'cull_limit_zero_histories', 'explicit_culls_evicting', 'fanout_histories',
-            'expired_and_policy_mixed')
+            'expired_and_policy_mixed', 'container_doors_checked')
 ASSUMPTIONS = ('LRU key = last set/add/incr/get-hit; LRS key = last set/add/incr; LFU key = reads since last store '
                '(an order is accepted if it is right with or without counting incr as a read)',
                'volume upper bound uses the page count before/after the call plus 6 pages of slack')
@@ -228,6 +230,74 @@ def history(dc, sc, res, rng, kind, cfg, label):
         sc.drop(d)
 
 
+# ------------------------------------------- Deque and Index never evict, whichever door they come through
+def container_doors(dc, d):
+    from diskcache import DjangoCache
+    fan = dc.FanoutCache(os.path.join(d, 'fan'), shards=2)
+    dj = DjangoCache(os.path.join(d, 'dj'), {'SHARDS': 2})
+    base = dc.Cache(os.path.join(d, 'base'), eviction_policy='none')
+    doors = {
+        'Deque(directory)': lambda: dc.Deque(directory=os.path.join(d, 'dq')),
+        'Deque(iterable, directory)': lambda: dc.Deque(['seed'], directory=os.path.join(d, 'dq2')),
+        'Deque.fromcache': lambda: dc.Deque.fromcache(base),
+        'FanoutCache.deque': lambda: fan.deque('a/deque'),
+        'FanoutCache.deque(maxlen)': lambda: fan.deque('b', maxlen=10**6),
+        'DjangoCache.deque': lambda: dj.deque('dq'),
+        'Index(directory)': lambda: dc.Index(os.path.join(d, 'ix')),
+        'Index(directory, mapping)': lambda: dc.Index(os.path.join(d, 'ix2'), {'seed': 1}),
+        'FanoutCache.index': lambda: fan.index('an/index'),
+        'DjangoCache.index': lambda: dj.index('ix'),
+    }
+    return doors, [fan, dj, base]
+
+
+def containers_never_evict(dc, sc, res, rng, label):
+    d = sc.new()
+    os.makedirs(d)
+    doors, owners = container_doors(dc, d)
+    try:
+        for name, make in sorted(doors.items()):
+            obj = make()
+            cache = obj.cache
+            is_deque = hasattr(obj, 'appendleft')
+            before = len(obj)
+            limit = gen.pick(rng, [0, 1, 20000, 60000])
+            cache.reset('size_limit', limit)            # the container is far beyond this after a few items
+            cull_limit = cache.cull_limit
+            n = rng.randrange(40, 90)
+            vals = ['item-%03d;' % i * rng.choice([1, 400]) for i in range(n)]
+            for i, v in enumerate(vals):
+                if is_deque:
+                    obj.append(v) if i % 3 else obj.appendleft(v)
+                else:
+                    obj['k%03d' % i] = v
+            res.count('container_writes_beyond_limit', n)
+            res.count('evaluations')
+            res.seen('evict_cells', ('container', name, limit))
+            wit = {'label': label, 'door': name, 'size_limit': limit, 'cull_limit': cull_limit,
+                   'eviction_policy': cache.eviction_policy, 'volume': cache.volume()}
+            if len(obj) != before + n:
+                res.violation('%s lost items to eviction: %d of %d stored items are left (policy %r)' % (
+                    name, len(obj) - before, n, cache.eviction_policy), wit)
+                continue
+            got = sorted(x for x in obj if x != 'seed') if is_deque else sorted(obj[k] for k in obj if k != 'seed')
+            if got != sorted(vals):
+                res.violation('%s holds other items than were stored' % name, wit)
+                continue
+            removed = cache.cull()
+            if removed or len(obj) != before + n:
+                res.violation('cull() on the cache of %s removed %d item(s)' % (name, removed), wit)
+                continue
+            res.count('container_doors_checked')
+    finally:
+        for o in owners:
+            try:
+                o.close()
+            except Exception:      # noqa: BLE001
+                pass
+        sc.drop(d)
+
+
 def run_shard(tier, seed, shard, nshards, res):
     dc = common.use_repo()
     probe.install()
@@ -249,3 +319,7 @@ def run_shard(tier, seed, shard, nshards, res):
             history(dc, sc, res, rng, kind, cfg, 'c09 seed=%d shard=%d i=%d' % (seed, shard, i))
             if res.counters.get('violations_raw', 0) > 8:
                 return
+        probe.set_clock(None)
+        for i in range(1 if tier == 'quick' else 6):
+            rng = common.rng_for(seed, 'c09d', shard, i)
+            containers_never_evict(dc, sc, res, rng, 'c09 containers seed=%d shard=%d i=%d' % (seed, shard, i))
